@@ -36,6 +36,9 @@ type guard struct {
 	site *ssa.Call
 	// badTrue: set by rel when the guard is matched: the failing edge is the true edge.
 	badTrue bool
+	// bindSite: the comparison was taken out of a boolean helper called in the condition; its operands
+	// are the helper's values and stand for the arguments of this call.
+	bindSite *ssa.Call
 }
 
 // passedOn: the path went through the guard (during the call g.site, if any) and left it on the
@@ -57,6 +60,9 @@ func (o *obCtx) refutedOn(sp *SeqPath, a, b role, bad token.Token, site *ssa.Cal
 		if h.site != nil {
 			o.c.bindParam = nil
 			o.c.bindCall(h.site.Call.StaticCallee(), h.site)
+		} else if h.bindSite != nil {
+			o.c.bindParam = nil
+			o.c.bindCall(h.bindSite.Call.StaticCallee(), h.bindSite)
 		}
 		op := h.op
 		switch {
@@ -161,6 +167,7 @@ func guardsOfRaw(fn *ssa.Function, derived bool) []guard {
 		// or a disjunct (all other edges true) of the condition.
 		if ph, isPhi := cond.(*ssa.Phi); isPhi && derived {
 			var cmp *ssa.BinOp
+			var pcall *ssa.Call
 			nT, nF, other := 0, 0, 0
 			for _, e := range ph.Edges {
 				if bv, isB := constBool(e); isB {
@@ -169,10 +176,29 @@ func guardsOfRaw(fn *ssa.Function, derived bool) []guard {
 					} else {
 						nF++
 					}
-				} else if bo, isBo := e.(*ssa.BinOp); isBo && isCmp(bo.Op) && cmp == nil {
+				} else if bo, isBo := e.(*ssa.BinOp); isBo && isCmp(bo.Op) && cmp == nil && pcall == nil {
 					cmp = bo
+				} else if cl, isCl := e.(*ssa.Call); isCl && cmp == nil && pcall == nil && cl.Call.StaticCallee() != nil && theCtx.IsNew(cl.Call.StaticCallee()) {
+					pcall = cl
 				} else {
 					other++
+				}
+			}
+			if pcall != nil && other == 0 && (nT == 0) != (nF == 0) {
+				// `ctx || helper(..)` / `ctx && helper(..)`: the helper's comparisons, if it combines them the same way
+				ds, conj := predicateParts(pcall.Call.StaticCallee())
+				if len(ds) == 1 || conj == (nF > 0) {
+					for _, d := range ds {
+						g := guard{iff: iff, x: d.X, y: d.Y, op: d.Op, only: 1, bindSite: pcall}
+						if nF > 0 {
+							g.only = 2
+						}
+						if neg {
+							g.op = negateOp(g.op)
+							g.only = 3 - g.only
+						}
+						gs = append(gs, g)
+					}
 				}
 			}
 			if cmp != nil && other == 0 && (nT == 0) != (nF == 0) {
@@ -265,14 +291,19 @@ func guardsOfRaw(fn *ssa.Function, derived bool) []guard {
 			if hp := x.Call.StaticCallee(); derived && hp != nil && theCtx.IsNew(hp) {
 				ds, conj := predicateParts(hp)
 				for _, d := range ds {
-					g := guard{iff: iff, x: d.X, y: d.Y, op: d.Op, only: 1}
+					g := guard{iff: iff, x: d.X, y: d.Y, op: d.Op, only: 1, bindSite: x}
 					if conj {
 						g.only = 2
+					}
+					if len(ds) == 1 {
+						g.only = 0 // the helper is this one comparison: both edges tell
 					}
 					if neg {
 						// !(a && b) = !a || !b, !(a || b) = !a && !b
 						g.op = negateOp(g.op)
-						g.only = 3 - g.only
+						if g.only != 0 {
+							g.only = 3 - g.only
+						}
 					}
 					gs = append(gs, g)
 				}
@@ -428,6 +459,9 @@ func (o *obCtx) rel(id string, a, b role, badOp token.Token, desc string) *guard
 		if g.site != nil {
 			o.c.bindParam = nil
 			o.c.bindCall(g.site.Call.StaticCallee(), g.site)
+		} else if g.bindSite != nil {
+			o.c.bindParam = nil
+			o.c.bindCall(g.bindSite.Call.StaticCallee(), g.bindSite)
 		}
 		if os.Getenv("XZV_DEBUG_OB") == id {
 			fmt.Fprintf(os.Stderr, "OB %s guard %s %s %s at %s site=%v: a(x)=%v b(y)=%v a(y)=%v b(x)=%v only=%d\n", id, g.x.Name(), g.op, g.y.Name(), o.c.InstrPos(g.iff), g.site != nil, a(g.x), b(g.y), a(g.y), b(g.x), g.only)
